@@ -138,7 +138,7 @@ def _run(cfg):
     script = cfg.get("rewards")
     for i in range(T):
         pt = rec.pull(t0 + i)
-        if rec.failed:
+        if rec.failed or not R.is_point(pt, D):      # not a point (e.g. None once a depth cap is exhausted): the trace ends here, with that event
             break
         if script is not None:
             ru = script[i]
